@@ -400,6 +400,14 @@ def prepare_case(gc: GCase, shard: dict, rnd: random.Random, acc: Acc) -> bool:
     for extra_in in EXTRA_INPUTS.pop(gc.label, []):
         if extra_in not in inputs:
             inputs.append(extra_in)
+    if shard.get("long_inputs"):
+        # a separate RNG: the short inputs of a grammar do not depend on whether long ones are added
+        lrnd = random.Random(seed_int(shard["seed"], "long", gc.label))
+        for li in G.long_inputs(gc.rules, gc.starts[0], lrnd, G.alphabet(gc.rules, shard.get("extra_alpha", "")), shard["long_inputs"]):
+            if li not in inputs:
+                inputs.append(li)
+                acc.count("long_inputs")
+                acc.maxi("longest_input", len(li))
     gc.info = info
     gc.inputs = inputs
     positions = shard.get("positions", False)
